@@ -15,7 +15,8 @@ CTYPES = ['int', 'long', '::vt::Ext<1>', '::vt::Ext<2>', '::vt::Ext<3>']
 IN_EVENTS = ['Claim', 'Release', 'Start', 'Stop', 'get', 'Bye', 'E2', 'ClaimAll', 'Rel', 'Sto', 'getX']   # incl. names that are substrings/prefixes of others
 OUT_EVENTS = ['Ok', 'Fail', 'Done', 'evt', 'Tick', 'OkDone', 'ev']
 FORMALS = ['a', 'b', 'c', 'val', 'p1', 'aa', 'va']
-PORT_NAMES = ['api', 'aux', 'cord', 'led', 'p', 'q2', 'x', 'ap', 'apix', 'le']
+PORT_NAMES = ['api', 'aux', 'cord', 'led', 'p', 'q2', 'x', 'ap', 'apix', 'le',
+              'locator', 'dispatcher', 'encapsulee', 'runtime']   # incl. names the generated shell uses itself
 # user texts that end up in comments: plain, multi-line, blank lines, leading whitespace, texts that already
 # look like a comment on their first line only, block-comment terminators, preprocessor lines
 COPYRIGHTS = ['Copyright (c) me', 'Line 1\nLine 2\n', '', '  x  \n\n y', '// (c) me\nint evil();', '  // x\n#define final',
@@ -160,7 +161,8 @@ def gen_model(rng, want_mc=False):
     kind = rng.choice(['component', 'component', 'system'])
     decls[-1] = (kind, cns + [cname])
     ports = []
-    pnames = rng.sample(PORT_NAMES, rng.randint(0 if not want_mc else 1, 5))
+    # mostly 0-5 ports; one component in ten is wide (up to 9 ports)
+    pnames = rng.sample(PORT_NAMES, rng.randint(0 if not want_mc else 1, 5) if rng.random() < 0.9 else rng.randint(6, 9))
     # the multi-client port sits at a random position among the ports (first, last, alone, ...)
     mc_i = rng.randrange(len(pnames)) if (want_mc and pnames) else None
     # port shape: sometimes provides-heavy (several MTS provides ports next to the multi-client one)
